@@ -27,7 +27,7 @@ func histEqual(a, b []types.RewardHistory) bool {
 // an immediate second claim pays nothing, and claiming changes no staked quantity.
 func H_C13_idem() {
 	id := "C13.idem"
-	st := Build(shapeActor("shape"), Opts{Rewards: true})
+	st := Build(shapeActor("shape"), Opts{Rewards: true, BigPool: true})
 	e := st.E
 	preL := ReadLedger(e)
 	preTok, _ := e.K.GetAssetByDenom(e.Ctx, Denoms[0])
@@ -61,7 +61,7 @@ func H_C13_idem() {
 // history equals the validator's (already settled) history and a claim pays nothing.
 func H_C13_noretro_delegate() {
 	id := "C13.noretro.delegate"
-	st := Build([]Pos{{1, 0, 0}}, Opts{Rewards: true})
+	st := Build([]Pos{{1, 0, 0}}, Opts{Rewards: true, BigPool: true})
 	e := st.E
 	amt := nd.IntRange("amt", "1", Pow30)
 	var err error
@@ -93,7 +93,7 @@ func H_C13_noretro_redelegate() {
 	} else {
 		nd.Tag("redelegate-new-position")
 	}
-	st := Build(ps, Opts{Rewards: true})
+	st := Build(ps, Opts{Rewards: true, BigPool: true})
 	e := st.E
 	hintUnitPrices(st)
 	amt := nd.IntRange("amt", "1", Pow30)
